@@ -2,7 +2,7 @@
    Statements only; proofs in Proofs/PkgProofs.v.  is_upper stands for unicode.IsUpper. *)
 From Coq Require Import ZArith List Bool.
 Import ListNotations.
-From ZV Require Import Model.Pkg Model.PkgSpec Proofs.PkgProofs.
+From ZV Require Import Model.Pkg Model.PkgSpec Proofs.PkgProofs Generated.PkgRoutes Model.PkgRoutes Proofs.PkgRoutesProofs.
 Open Scope Z_scope.
 
 (* ---- 1. the path walk of the code is the visibility specification: every heap (any nesting,
@@ -191,3 +191,93 @@ Example ex_facade_with_the_callees_name :
   | _ => False
   end.
 Proof. exact PkgProofs.ex_facade_with_the_callees_name. Qed.
+
+(* ---- 5. every ROUTE into the dot-path code (census generated from the source on every run) ---- *)
+(* tie: the calls of dotGetSetHelper / nestedPathGetSet / errIfPrivate found in zygo/*.go are exactly the
+   modelled ones, with the modelled access (read / write), path slice and hop *)
+Theorem census_is_modelled : census_ok helper_sites = true.
+Proof. exact PkgRoutesProofs.census_is_modelled. Qed.
+Print Assumptions census_is_modelled.
+
+Theorem walkers_as_modelled : shape_eqb (walker_shape walker_sites) expected_walkers = true.
+Proof. exact PkgRoutesProofs.walkers_as_modelled. Qed.
+Print Assumptions walkers_as_modelled.
+
+Theorem privacy_checked_only_in_package_walker : private_ok private_sites = true.
+Proof. exact PkgRoutesProofs.privacy_checked_only_in_package_walker. Qed.
+Print Assumptions privacy_checked_only_in_package_walker.
+
+(* every call site of the helper, in any lexical context, any heap, any path: the one specification *)
+Theorem all_sites_check_the_same_hop : forall is_upper s h frame stack path v,
+  names_ok path ->
+  verdict_of (site_run is_upper s h frame stack path v)
+    = spec_path is_upper h frame stack path (match site_access s with AGet => None | _ => Some v end).
+Proof. exact PkgRoutesProofs.all_sites_check_the_same_hop. Qed.
+Print Assumptions all_sites_check_the_same_hop.
+
+Theorem read_sites_agree : forall is_upper s1 s2 h frame stack path v1 v2,
+  site_access s1 = AGet -> site_access s2 = AGet ->
+  site_run is_upper s1 h frame stack path v1 = site_run is_upper s2 h frame stack path v2.
+Proof. exact PkgRoutesProofs.read_sites_agree. Qed.
+Print Assumptions read_sites_agree.
+
+Theorem write_sites_agree : forall is_upper s1 s2 h frame stack path v,
+  site_access s1 = ASet -> site_access s2 = ASet ->
+  site_run is_upper s1 h frame stack path v = site_run is_upper s2 h frame stack path v.
+Proof. exact PkgRoutesProofs.write_sites_agree. Qed.
+Print Assumptions write_sites_agree.
+
+(* every route a program can take (operand of a builtin, argument of a function, dereference, call through a
+   path / a call expression / a symbol bound to a dot symbol, hget with a dot key, assignment forms, compound
+   assignment, def of a dotted name) computes the verdict of the specification *)
+Theorem every_route_is_visible : forall is_upper h r,
+  route_ok is_upper h r -> verdict_of (route_run is_upper h r) = route_spec is_upper h r.
+Proof. exact PkgRoutesProofs.every_route_is_visible. Qed.
+Print Assumptions every_route_is_visible.
+
+(* a path the rule denies is denied on EVERY reading route, naming the same member and package *)
+Theorem every_read_route_denies_private : forall is_upper h r p m pk,
+  route_reads r = Some p -> names_ok p ->
+  spec_path is_upper h [] top p None = Denied m pk ->
+  route_run is_upper h r = Err (EPriv m pk).
+Proof. exact PkgRoutesProofs.every_read_route_denies_private. Qed.
+Print Assumptions every_read_route_denies_private.
+
+Theorem every_write_site_denies_private : forall is_upper s h frame stack p v m pk,
+  site_access s = ASet -> names_ok p ->
+  spec_path is_upper h frame stack p (Some v) = Denied m pk ->
+  site_run is_upper s h frame stack p v = Err (EPriv m pk).
+Proof. exact PkgRoutesProofs.every_write_site_denies_private. Qed.
+Print Assumptions every_write_site_denies_private.
+
+(* a top-level call through a path = the specification of calls (any frame) *)
+Theorem call_path_is_spec_call : forall is_upper h frame p args,
+  funs_ok is_upper h -> names_ok p ->
+  verdict_of (call_path is_upper h frame [0%nat] p (map VInt args)) = spec_call is_upper h frame p args.
+Proof. exact PkgRoutesProofs.call_path_is_spec_call. Qed.
+Print Assumptions call_path_is_spec_call.
+
+(* (hget root (quote .rest)) is the dot path root.rest: entering through the hash API skips no check *)
+Theorem hget_route_is_the_dot_path : forall is_upper h root rest h' id,
+  rest <> [] ->
+  spec_path is_upper h [] top root None = Allowed h' (VHash id) ->
+  route_spec is_upper h (RHget root rest) = spec_path is_upper h [] top (root ++ rest) None.
+Proof. exact PkgRoutesProofs.hget_route_is_the_dot_path. Qed.
+Print Assumptions hget_route_is_the_dot_path.
+
+Example ex_routes_deny_private :
+  route_run ascii_upper demo_heap (RDeref [n_pk; n_priv]) = Err (EPriv n_priv n_pk) /\
+  route_run ascii_upper demo_heap (RArg [n_pk; n_priv]) = Err (EPriv n_priv n_pk) /\
+  route_run ascii_upper demo_heap (RCallExpr [n_pk; n_priv] []) = Err (EPriv n_priv n_pk) /\
+  route_run ascii_upper demo_heap (RIndirect [n_pk; n_priv] []) = Err (EPriv n_priv n_pk) /\
+  route_run ascii_upper demo_heap (RCompound [n_pk; n_priv]) = Err (EPriv n_priv n_pk) /\
+  route_run ascii_upper demo_heap (RHget [n_h2] [n_N; n_P; n_priv]) = Err (EPriv n_priv n_pk).
+Proof. exact PkgRoutesProofs.ex_routes_deny_private. Qed.
+
+Example ex_routes_allow_public :
+  route_run ascii_upper demo_heap (RDeref [n_pk; n_Pub]) = Ok (demo_heap, VInt 1) /\
+  route_run ascii_upper demo_heap (RCallExpr [n_pk; n_Get] []) = Ok (demo_heap, VInt 2) /\
+  route_run ascii_upper demo_heap (RHget [n_h2] [n_N; n_P; n_Pub]) = Ok (demo_heap, VInt 1) /\
+  route_run ascii_upper demo_heap (RCompound [n_pk; n_Pub]) = Err ENotFun /\
+  route_run ascii_upper demo_heap (RDefDot [n_pk; n_priv] 5) = Ok (demo_heap, VInt 5).
+Proof. exact PkgRoutesProofs.ex_routes_allow_public. Qed.
